@@ -345,6 +345,15 @@ pub fn gen_program(r: &mut Rng, w: &Weights) -> Case {
             let is_fact = i + 1 == npred || r.chance(2, 5);
             let body = if is_fact { Goal::Nil } else {
                 let n = 1 + r.below(3);
+                // a parenthesised group to the left of a cut, and something after the cut that may fail: the group must not be
+                // entered again (seeded change C02r11: the cut disabled only a plain call on its left)
+                if w.cut > 0 && r.chance(1, 10) {
+                    let k = 2 + r.below(2);
+                    let mut grp = vec![]; for _ in 0..k { grp.push(gen_goal(r, w, &arities, i, 2)); }
+                    let group = if r.chance(2, 3) { Goal::OperatorGoal(Operator::Or(grp)) } else { Goal::OperatorGoal(Operator::And(grp)) };
+                    let after = if r.chance(1, 3) { bip0("fail") } else { gen_goal(r, w, &arities, i, 1) };
+                    Goal::OperatorGoal(Operator::And(vec![group, bip0("!"), after]))
+                } else
                 if n == 1 { gen_goal(r, w, &arities, i, 0) }
                 else { let mut gs = vec![]; for _ in 0..n { gs.push(gen_goal(r, w, &arities, i, 1)); } Goal::OperatorGoal(Operator::And(gs)) }
             };
@@ -357,8 +366,23 @@ pub fn gen_program(r: &mut Rng, w: &Weights) -> Case {
     Case{rules, query, max_calls: 40, extra: 1 + r.below(3)}
 }
 
+/// a parameter handed down unchanged through `depth` levels of recursion and printed at each: the callee's variable is bound to
+/// the caller's, so the printed value is reached through a chain of up to `depth` variable-to-variable links (seeded change
+/// C04r11: `get_ground_term` gave up after 128 links and `print` fell back to the variable's name)
+pub fn deep_print_case(depth: usize) -> Case {
+    let items: Vec<Unifiable> = (0..depth).map(|i| SInteger(i as i64)).collect();
+    let rules = vec![
+        Rule{head: scomplex!(atom!("walk"), proper_list(vec![], None), lv("$T")), body: Goal::Nil},
+        Rule{head: scomplex!(atom!("walk"), proper_list(vec![lv("$H")], Some(lv("$R"))), lv("$T")),
+             body: Goal::OperatorGoal(Operator::And(vec![bip("print", vec![atom!("%s-%s "), lv("$T"), lv("$H")]),
+                                                         Goal::ComplexGoal(scomplex!(atom!("walk"), lv("$R"), lv("$T")))]))},
+    ];
+    Case{rules, query: vec![atom!("walk"), proper_list(items, None), atom!("item")], max_calls: 40, extra: 1}
+}
+
 pub fn run_random(out: &mut Out, cfg: &Cfg, w: &Weights, seed: u64, n: usize) {
     let mut r = Rng::new(seed);
+    if w.print > 0 { for depth in [3usize, 127, 128, 129, 140] { emit(out, cfg, &deep_print_case(depth)); } }
     for _ in 0..n { let c = gen_program(&mut r, w); emit(out, cfg, &c); }
 }
 
